@@ -30,3 +30,207 @@ Theorem model_passes_prefix_test pa l c0 ls i w :
   0 < l -> nth_error (s_ws (run pa ls (init l c0))) i = Some w -> accepted w = true ->
   prefixb (concat (w_got w)) (ideal (w_S w) (w_P w) (w_base w) (s_cached (run pa ls (init l c0)))) = true.
 Proof. intros. apply is_prefix_prefixb. apply (prefix_full pa l c0 ls i w); assumption. Qed.
+
+(* ------------------------------------------------------------------ pipeline cases: check = true -> oracle = None *)
+
+(* a watcher whose Watch call has not returned a channel has delivered nothing *)
+Definition idle_client (w : watcher) : Prop :=
+  accepted w = false -> w_gotR w = [] /\ c_buf (w_out w) = [] /\ c_closed (w_out w) = false.
+
+Lemma idle_same w w' :
+  (accepted w' = false -> accepted w = false) -> w_gotR w' = w_gotR w -> w_out w' = w_out w ->
+  idle_client w -> idle_client w'.
+Proof. unfold idle_client. intros Ha Hg Ho H A. rewrite Hg, Ho. apply H. apply Ha. exact A. Qed.
+
+Ltac idle_tac :=
+  match goal with
+  | |- idle_client ?w' -> idle_client ?w' => exact (fun h => h)
+  | _ => apply idle_same; [unfold accepted; cbn; try (intros h; exact h); try (intros h; discriminate h)|reflexivity|reflexivity]
+  end.
+
+Lemma idle_offer pa item w : idle_client w -> idle_client (offer pa item w).
+Proof. unfold offer. destruct (w_reg w); [|idle_tac]. destruct (_ <? _); idle_tac. Qed.
+Lemma idle_delete w cd : idle_client w -> idle_client (delete_watcher w cd).
+Proof. unfold delete_watcher. destruct (w_reg w); idle_tac. Qed.
+Lemma idle_read s w : idle_client w -> idle_client (watch_read s w).
+Proof.
+  unfold watch_read. destruct (w_phase w) eqn:E; try idle_tac.
+  destruct (w_S w =? 0); [idle_tac|]. apply idle_same; [unfold accepted; cbn; rewrite E; reflexivity|reflexivity|reflexivity].
+Qed.
+Lemma idle_spawn pa s w : idle_client w -> idle_client (watch_spawn pa s w).
+Proof.
+  unfold watch_spawn. destruct (w_phase w) eqn:E; try idle_tac.
+  - destruct (w_S w =? 0); [|idle_tac]. intros _. unfold idle_client, accepted. cbn. intros H; discriminate.
+  - destruct (watch_decide _ _ _ _ _).
+    + apply idle_same; [unfold accepted; cbn; rewrite E; reflexivity|reflexivity|reflexivity].
+    + intros _. unfold idle_client, accepted. cbn. intros H; discriminate.
+    + apply idle_same; [unfold accepted; cbn; rewrite E; reflexivity|reflexivity|reflexivity].
+    + apply idle_same; [unfold accepted; cbn; rewrite E; reflexivity|reflexivity|reflexivity].
+Qed.
+Lemma idle_acc w : accepted w = true -> idle_client w.
+Proof. unfold idle_client. intros A H. congruence. Qed.
+Lemma idle_proc pa w : idle_client w -> idle_client (proc_step pa w).
+Proof.
+  unfold proc_step. destruct (w_phase w) eqn:E; try idle_tac.
+  intros _. apply idle_acc. destruct (w_hold w).
+  - destruct (_ <? _); unfold accepted; cbn; rewrite ?E; reflexivity.
+  - destruct (chan_recv (w_sub w)) as [[b c]|]; [unfold accepted; cbn; rewrite ?E; reflexivity|].
+    destruct (c_closed (w_sub w)); unfold accepted; cbn; rewrite ?E; reflexivity.
+Qed.
+Lemma idle_consume w : idle_client w -> idle_client (consume_step w).
+Proof.
+  unfold consume_step. intros H. destruct (accepted w) eqn:A.
+  - apply idle_acc. destruct (chan_recv (w_out w)) as [[b c]|]; [unfold accepted in *; cbn; exact A|].
+    destruct (c_closed (w_out w)); unfold accepted in *; cbn; exact A.
+  - destruct (H A) as [H1 [H2 H3]]. rewrite (chan_recv_nil _ H2), H3. exact H.
+Qed.
+
+Definition all_idle (s : sys) : Prop := Forall idle_client (s_ws s).
+
+Lemma idle_upd s i f : (forall w, idle_client w -> idle_client (f w)) -> all_idle s -> all_idle (upd_w s i f).
+Proof. intros Hf H. unfold all_idle, upd_w, s_set_ws in *. cbn [s_ws]. apply Forall_upd_nth; assumption. Qed.
+
+Lemma idle_step pa s lb : all_idle s -> all_idle (step pa s lb).
+Proof.
+  intros H. unfold step. destruct (s_panic s); [exact H|].
+  destruct lb as [we| | |order|i|sr pf|i|i|i|i|i].
+  - destruct (s_cur s); [exact H|]. destruct (_ && _); exact H.
+  - destruct (s_cur s); [|exact H]. destruct (ring_add _ _); exact H.
+  - destruct (s_cur s); [exact H|]. destruct (s_pending s); [exact H|]. destruct (_ <? _); exact H.
+  - destruct (s_wchan s); [exact H|]. destruct (existsb _ _); [exact H|].
+    unfold all_idle in *. cbn [s_ws]. apply Forall_map. eapply Forall_impl; [|exact H]. intros w. apply idle_offer.
+  - apply idle_upd; [|exact H]. intros w Hw. destruct (_ && _); [apply idle_delete|]; exact Hw.
+  - unfold all_idle, s_set_ws in *. cbn [s_ws]. apply Forall_app. split; [exact H|]. constructor; [|constructor].
+    intros _. cbn. repeat split.
+  - apply idle_upd; [|exact H]. intros w. apply idle_read.
+  - assert (H' : all_idle (upd_w s i (watch_spawn pa s))) by (apply idle_upd; [intros w; apply idle_spawn|exact H]).
+    destruct (nth_error (s_ws s) i); [|exact H]. destruct (w_phase _); exact H'.
+  - apply idle_upd; [|exact H]. intros w. apply idle_proc.
+  - apply idle_upd; [|exact H]. intros w. apply idle_consume.
+  - apply idle_upd; [|exact H]. intros w Hw. exact Hw.
+Qed.
+
+Lemma idle_run pa l c0 ls : all_idle (run pa ls (init l c0)).
+Proof.
+  induction ls as [|lb ls IH] using rev_ind; [constructor|]. rewrite run_snoc. apply idle_step. exact IH.
+Qed.
+
+(* the successful slots of the script are exactly what the model's sequencer has cached or holds *)
+Definition cur_evs (s : sys) : list event := match s_cur s with Some e => [e] | None => [] end.
+
+Lemma sg_step pa s lb sg :
+  s_panic s = false -> take_ok pa s lb = true ->
+  s_cached s ++ cur_evs s = frev sg ->
+  s_cached (step pa s lb) ++ cur_evs (step pa s lb) = frev (sg_push sg lb).
+Proof.
+  intros Hp Ht H. unfold step. rewrite Hp.
+  destruct lb as [we| | |order|i|sr pf|i|i|i|i|i]; cbn [sg_push]; try exact H.
+  - cbn [take_ok] in Ht. destruct (s_cur s) eqn:Ecur; [discriminate|]. rewrite Ht.
+    unfold cur_evs, s_cached in *. cbn [s_cur s_cachedR]. rewrite Ecur in H. rewrite app_nil_r in H.
+    destruct (we_valid we); [rewrite frev_cons, H; reflexivity|rewrite app_nil_r; exact H].
+  - destruct (s_cur s) as [e|] eqn:Ecur; [|exact H]. destruct (ring_add _ _); [|exact H].
+    unfold cur_evs, s_cached in *. cbn [s_cur s_cachedR]. rewrite Ecur in H. rewrite frev_cons, app_nil_r. exact H.
+  - destruct (s_cur s) eqn:Ecur; [exact H|]. destruct (s_pending s); [exact H|]. destruct (_ <? _); [|exact H].
+    unfold cur_evs, s_cached in *. cbn [s_cur s_cachedR]. rewrite Ecur in H. exact H.
+  - destruct (s_wchan s); [exact H|]. destruct (existsb _ _); exact H.
+  - destruct (nth_error (s_ws s) i); [|exact H]. destruct (w_phase _); exact H.
+Qed.
+
+Lemma panic_step pa s lb : s_panic s = true -> step pa s lb = s.
+Proof. intros H. unfold step. rewrite H. reflexivity. Qed.
+
+Lemma panic_check pa steps s : s_panic s = true -> run_check pa steps s = false.
+Proof.
+  intros Hp. induction steps as [|st t IH]; cbn [run_check]; [rewrite Hp; reflexivity|].
+  destruct st; rewrite ?panic_step by exact Hp; rewrite ?IH; rewrite ?andb_false_r; reflexivity.
+Qed.
+
+Lemma ev_eqb_true_eq a b : ev_eqb a b = true -> a = b.
+Proof.
+  destruct a as [t r k v kr], b as [t' r' k' v' kr']. unfold ev_eqb. cbn. intros H.
+  repeat (apply andb_true_iff in H as [H ?]). apply beqb_eq in H1, H2. apply N.eqb_eq in H0, H3.
+  destruct t, t'; try discriminate; congruence.
+Qed.
+
+Lemma evs_eqb_true_eq a b : evs_eqb a b = true -> a = b.
+Proof.
+  unfold evs_eqb. revert b; induction a as [|x a IH]; intros [|y b]; cbn [list_eqb]; try discriminate; [reflexivity|].
+  intros H. apply andb_true_iff in H as [H1 H2]. f_equal; [apply ev_eqb_true_eq; exact H1|apply IH; exact H2].
+Qed.
+
+Lemma ideal_mono S P base a b :
+  (base <= length a)%nat -> is_prefix a b -> is_prefix (ideal S P base a) (ideal S P base b).
+Proof.
+  intros Hb Hp. unfold ideal. destruct (S =? 0).
+  - unfold filter_by_prefix. apply is_prefix_filter. apply is_prefix_skipn; assumption.
+  - apply is_prefix_filter. exact Hp.
+Qed.
+
+(* one observation *)
+Lemma obs_sound pa l c0 ls sg o :
+  0 < l -> let s := run pa ls (init l c0) in
+  s_cached s ++ cur_evs s = frev sg -> obs_ok s o = true -> obs_oracle s (frev sg) o = None.
+Proof.
+  intros Hl s Hsg Hok. unfold obs_ok in Hok. unfold obs_oracle.
+  destruct (nth_error (s_ws s) (o_w o)) as [w|] eqn:Hn; [|reflexivity].
+  destruct (o_got o) as [g0|]; [|reflexivity].
+  apply andb_true_iff in Hok as [Hok Hq]. apply andb_true_iff in Hok as [Hok Hcl].
+  apply andb_true_iff in Hok as [Hok Hg]. apply andb_true_iff in Hok as [Hst _].
+  apply evs_eqb_true_eq in Hg. cbv zeta. rewrite Hg.
+  pose proof (reachable_inv pa l c0 ls Hl) as G. pose proof (winv_of pa l c0 ls (o_w o) w Hl Hn) as W. fold s in G, W.
+  assert (Hpre : is_prefix (s_cached s) (frev sg)) by (rewrite <- Hsg; apply is_prefix_app).
+  assert (Hbase : (w_base w <= length (s_cached s))%nat).
+  { pose proof (wi_base _ _ _ _ W). pose proof (ginv_hub_len _ _ G). lia. }
+  assert (Hprefix : prefixb (concat (w_got w)) (ideal (w_S w) (w_P w) (w_base w) (frev sg)) = true).
+  { destruct (accepted w) eqn:A.
+    - apply is_prefix_prefixb. eapply is_prefix_trans; [apply (prefix_full pa l c0 ls (o_w o) w Hl Hn A)|].
+      apply ideal_mono; assumption.
+    - pose proof (idle_run pa l c0 ls) as Hi. unfold all_idle in Hi. rewrite Forall_forall in Hi.
+      destruct (Hi w (nth_error_In _ _ Hn) A) as [Hgot _]. unfold w_got. rewrite Hgot. reflexivity. }
+  rewrite Hprefix.
+  destruct (o_quiet o); [|reflexivity].
+  destruct (o_status o) as [st|]; [|reflexivity].
+  destruct (o_closed o) as [cl|]; [|destruct st as [|[p|p|]]; reflexivity].
+  destruct st as [|[p|p|]]; try reflexivity. destruct cl; [reflexivity|].
+  (* accepted, open, settled: complete *)
+  apply andb_true_iff in Hq as [Hquiet Hopen].
+  unfold quiescent in Hquiet.
+  destruct (s_cur s) eqn:E1; [discriminate|]. destruct (s_pending s) eqn:E2; [|discriminate].
+  destruct (s_wchan s) eqn:E3; [|discriminate]. destruct (c_buf (w_sub w)) eqn:E4; [|discriminate].
+  destruct (w_hold w) eqn:E5; [discriminate|]. destruct (c_buf (w_out w)) eqn:E6; [|discriminate].
+  unfold open_stream in Hopen. apply andb_true_iff in Hopen as [Hopen Ho2]. apply andb_true_iff in Hopen as [Hph Ho1].
+  destruct (w_phase w) eqn:E7; try discriminate.
+  apply negb_true_iff in Ho1, Ho2.
+  assert (Hset : settled s w) by (unfold settled; repeat split; assumption).
+  rewrite (complete_settled pa l c0 ls (o_w o) w Hl Hn Hset).
+  unfold cur_evs in Hsg. rewrite E1, app_nil_r in Hsg. fold s. rewrite Hsg.
+  unfold ok_if. rewrite Nat.eqb_refl. reflexivity.
+Qed.
+
+Lemma run_sound pa l c0 : 0 < l -> forall steps ls sg,
+  let s := run pa ls (init l c0) in
+  s_cached s ++ cur_evs s = frev sg ->
+  run_check pa steps s = true -> run_oracle pa steps s sg = None.
+Proof.
+  intros Hl. induction steps as [|st t IH]; intros ls sg s Hsg Hc; [reflexivity|]. subst s.
+  destruct st as [lb|o|n|n|r0 n k v after|n lbs]; cbn [run_check run_oracle] in *.
+  - apply andb_true_iff in Hc as [Ht Hc].
+    destruct (s_panic (run pa ls (init l c0))) eqn:Hp.
+    { rewrite panic_check in Hc; [discriminate|]. rewrite panic_step by exact Hp. exact Hp. }
+    rewrite <- run_snoc in *. apply IH; [|exact Hc].
+    rewrite run_snoc. apply sg_step; assumption.
+  - apply andb_true_iff in Hc as [Ho Hc]. rewrite (obs_sound pa l c0 ls sg o Hl Hsg Ho). apply IH; assumption.
+  - apply andb_true_iff in Hc as [_ Hc]. apply IH; assumption.
+  - apply andb_true_iff in Hc as [_ Hc]. apply IH; assumption.
+  - discriminate.
+  - discriminate.
+Qed.
+
+(* the oracle accepts every case on which model and implementation agree: ring, hub-alone and backend cases *)
+Theorem c05_oracle_sound c : c05_valid c -> c05_check c = true -> c05_oracle c = None.
+Proof.
+  destruct c as [l revs S obs|pa l c0 steps].
+  - apply c05_oracle_sound_ring.
+  - cbn [c05_valid c05_check c05_oracle]. intros Hl Hc.
+    apply (run_sound pa l c0 Hl (expand_steps steps) [] []); [reflexivity|exact Hc].
+Qed.
